@@ -35,7 +35,8 @@ type UtilEv struct {
 }
 
 var utilFns = []string{"StripDuplicates", "ReversePath", "TranslatePath64", "TranslatePaths64", "OffsetPath", "MakePath64",
-	"ScalePath64", "Ellipse64", "RectContains", "RectIntersects", "RectMid", "RectIsEmpty", "Path64ToPathD"}
+	"ScalePath64", "Ellipse64", "RectContains", "RectIntersects", "RectMid", "RectIsEmpty", "Path64ToPathD",
+	"OffsetCallbackConst", "EngineDScaleFunc", "PolyTreeAccessors", "LowestPathInfo", "PointScale"}
 
 func execUtil(e *UtilEv) {
 	p0, s0 := append(Path{}, e.Path...), clonePaths(e.Set)
@@ -120,6 +121,27 @@ func execUtil(e *UtilEv) {
 			var s2, o2 clipper.PathsD
 			g2.ExecuteWithScaleFunc(clipper.ClipType(e.N1), clipper.FillRule(e.N2), &s2, &o2, clipper.ScalePath64ToPathD)
 			e.ResSet, e.ResSet2 = fromPathsDScaled(s2, 10), fromPathsDScaled(s1, 10)
+		case "LowestPathInfo": // the offset group's orientation reference: n3 = index of the lowest path, b = its area is negative
+			g := clipper.NewGroup(toPaths64(e.Set), clipper.JoinType(e.N2), clipper.Polygon)
+			idx, neg := g.GetLowestPathInfo()
+			e.N3, e.B = int64(idx), neg
+			co := clipper.NewClipperOffset(2, 0.25, false, false)
+			co.AddPaths(toPaths64(e.Set), clipper.JoinType(e.N2), clipper.Polygon)
+			e.Flag = co.CheckPathsReversed()
+		case "PointScale": // Point64 -> PointD by the scale 2^-n1 and back by 2^n1 (both exact); PointD (n/4) -> Point64 rounds half away from zero
+			sc := 1.0
+			for k := int64(0); k < e.N1; k++ {
+				sc *= 2
+			}
+			for _, v := range e.Path {
+				p := clipper.Point64{X: v[0], Y: v[1]}
+				d := p.ToPointDScale(1 / sc)
+				q := d.ToPoint64Scale(sc)
+				e.Res = append(e.Res, Pt{q.X, q.Y})
+				f := clipper.PointD{X: float64(v[0]) / 4, Y: float64(v[1]) / 4}
+				h := f.ToPoint64Scale(1)
+				e.Res = append(e.Res, Pt{h.X, h.Y})
+			}
 		case "PolyTreeAccessors": // Set[0] subject, Set[1:] clip, clip type n1, fill rule n2
 			t := clipper.BooleanOpPolyTree64(clipper.ClipType(e.N1), toPaths64(e.Set[0:1]), toPaths64(e.Set[1:]), clipper.FillRule(e.N2))
 			e.Tree = flattenT(t.PolyPathBase)
@@ -194,6 +216,18 @@ func driveUtil(r *rand.Rand, w *writer, n int) {
 				e.Set = e.Set[:2]
 			}
 			e.N1, e.N2 = int64(2+r.Intn(40))*int64(1-2*r.Intn(2)), int64(r.Intn(3))
+		case "LowestPathInfo":
+			e.Set = Paths{}
+			for k := r.Intn(4); k >= 0; k-- {
+				q := small(3 + r.Intn(4))
+				if r.Intn(3) == 0 {
+					q = generalPath(r, -6, 6, 3+r.Intn(3))
+				}
+				e.Set = append(e.Set, q)
+			}
+			e.N2 = int64(r.Intn(4))
+		case "PointScale":
+			e.Path, e.N1 = generalPath(r, -1000, 1000, 1+r.Intn(4)), int64(r.Intn(11))
 		case "EngineDScaleFunc", "PolyTreeAccessors":
 			a, b := genClosedSet(r, r.Intn(3)), genClosedSet(r, r.Intn(3))
 			e.Set = append(Paths{a[0]}, b...)
